@@ -127,9 +127,13 @@ func (h *Hub) Start() {
 
 // close all connections
 func (h *Hub) Shutdown() {
+	// shutting down and establishing a connection exclude each other: a connection is
+	// either registered by now and gets closed below, or it finds the hub shut down and is dropped
+	h.muxConnect.Lock()
 	h.muxStarted.Lock()
 	h.hasShutdown = true
 	h.muxStarted.Unlock()
+	h.muxConnect.Unlock()
 
 	h.mdns.Shutdown()
 
